@@ -337,3 +337,186 @@ contract("bacpypes.service.object:ReadWritePropertyServices.do_WritePropertyRequ
     note="an acknowledged write is stored and read back; a refused one (unknown object / property, read-only, wrong type, bad index, index on a scalar) raises the error "
          "the application layer turns into the Error / Reject reply and leaves every property unchanged; array length writes are covered by ArrayOf.__setitem__[length]; "
          "whole-array replacement depends on Any.cast_out building the array (C03) and is not in this unit")
+
+# -- ReadPropertyMultiple: per reference exactly what ReadProperty answers, or the embedded error; the three selectors ---------------------------
+
+from bacpypes.service.object import ReadWritePropertyMultipleServices
+from bacpypes.basetypes import PropertyIdentifier, PropertyReference
+from bacpypes.apdu import ReadAccessSpecification, ReadPropertyMultipleACK
+
+PropList = Slots      # element type irrelevant here (the real one, an enumeration, initialises class tables on first use: outside the subset)
+
+def TheObjectRPM():
+    """the object of the other units plus a propertyList property (never reported by the selectors) and an optional property that may be absent"""
+    def build(b, name):
+        o = TheObject().build(b, name)
+        o._properties['propertyList'] = Property('propertyList', PropList, optional=False, mutable=False)
+        pl = object.__new__(PropList)
+        pl.value = [2, 85, 87]
+        o._values['propertyList'] = pl
+        o._values['name'] = OneOf('abc', None).build(b, name + '.name')
+        return o
+    return Fn(build)
+
+def expected_error(o, propid, idx):
+    """(class, code) with which ReadProperty refuses (object, property, index); None when it answers with a value"""
+    if o is None:
+        return ('object', 'unknownObject')
+    if propid not in o._properties:
+        return ('property', 'unknownProperty')
+    if idx is not None and propid not in ('slots', 'ranges', 'propertyList'):
+        return ('property', 'propertyIsNotAnArray')
+    if o._values[propid] is None:
+        return ('property', 'unknownProperty')
+    if idx is not None and (idx < 0 or idx > o._values[propid].value[0]):
+        return ('property', 'invalidArrayIndex')
+    return None
+
+def carried_any_ok(any_, o, propid, idx):
+    """carried_ok for every property of the RPM object"""
+    if propid in ('ranges', 'propertyList'):
+        if len(any_.carried) != 1:
+            return False
+        v = any_.carried[0]
+        arr = o._values[propid]
+        if idx is None:
+            return v is arr
+        if idx == 0:
+            return type(v) is Unsigned and v.value == arr.value[0]
+        if propid == 'ranges':
+            return v is arr.value[idx]
+        return type(v) is Unsigned and v.value == arr.value[idx]
+    return carried_ok(any_, o, propid, idx)
+
+def view_or_none(o):
+    return None if o is None else view(o)
+
+def element_ok(el, o, propid, idx):
+    """one result element: the reference it answers, and the value ReadProperty gives or the error it refuses with -- never both, never neither"""
+    if not (el.propertyIdentifier == propid and ((el.propertyArrayIndex is None) if idx is None else (el.propertyArrayIndex == idx))):
+        return False
+    rr = el.readResult
+    want = expected_error(o, propid, idx)
+    if want is None:
+        return rr.propertyAccessError is None and rr.propertyValue is not None and carried_any_ok(rr.propertyValue, o, propid, idx)
+    e = rr.propertyAccessError
+    return rr.propertyValue is None and e is not None and (e.errorClass, e.errorCode) == want
+
+contract("bacpypes.service.object:read_property_to_result_element",
+    params={"obj": OneOf(TheObjectRPM(), Const(None)), "propertyIdentifier": OneOf('level', 'limit', 'name', 'slots', 'ranges', 'propertyList', 'nonesuch'),
+            "propertyArrayIndex": Maybe(Int())},
+    globals_={"Any": ("bacpypes.service.object", GhostAny)},
+    ensures=["element_ok(result, obj, propertyIdentifier, propertyArrayIndex)", "view_or_none(obj) == old(view_or_none(obj))"],
+    modifies=[],
+    note="never raises: unknown object / property, absent optional property, index on a scalar, index outside 0..n become the embedded error ReadProperty would answer with")
+
+class GhostMultiServices(ReadWritePropertyMultipleServices):
+    def __init__(self):
+        pass
+    def get_object_id(self, objid):
+        return self.ghost_objects.get(objid)
+    def response(self, apdu):
+        ghost_response(apdu)
+
+DEV_ID = ('device', 7)
+WILD = ('device', 4194303)
+SELECTORS = ('all', 'required', 'optional')
+
+def MultiServices(with_device=True):
+    def build(b, name):
+        s = GhostMultiServices()
+        o = TheObjectRPM().build(b, name + '.obj')
+        s.ghost_objects = {OBJ_ID: o}
+        s.ghost_obj = o
+        if with_device:
+            # the device object: what the wildcard instance refers to
+            d = TheObject().build(b, name + '.dev')
+            d.__dict__['objectIdentifier'] = DEV_ID
+            s.ghost_objects[DEV_ID] = d
+            s.localDevice = d
+        else:
+            s.localDevice = None
+        return s
+    return Fn(build)
+
+def Ref(*props, **kw):
+    indexed = kw.get('indexed', True)
+    def build(b, name):
+        r = PropertyReference()
+        r.propertyIdentifier = OneOf(*props).build(b, name + '.propertyIdentifier')
+        r.propertyArrayIndex = Maybe(Int()).build(b, name + '.propertyArrayIndex') if indexed else None
+        return r
+    return Fn(build)
+
+def Spec(objids, *refs):
+    def build(b, name):
+        sp = ReadAccessSpecification()
+        sp.objectIdentifier = OneOf(*objids).build(b, name + '.objectIdentifier')
+        sp.listOfPropertyReferences = [r.build(b, '%s.ref%d' % (name, i)) for i, r in enumerate(refs)]
+        return sp
+    return Fn(build)
+
+def MultiReq(*specs):
+    def build(b, name):
+        req = Obj("bacpypes.apdu:ReadPropertyMultipleRequest", apduInvokeID=Int(0, 255), apduService=Const(14), apduType=Const(0), pduSource=Token(),
+                  pduDestination=Token(), pduUserData=Token(), pduExpectingReply=Const(1), pduNetworkPriority=Const(0), listOfReadAccessSpecs=Const(None)).build(b, name)
+        req.listOfReadAccessSpecs = [s.build(b, '%s.spec%d' % (name, i)) for i, s in enumerate(specs)]
+        return req
+    return Fn(build)
+
+def selected(o, selector):
+    """the properties a selector stands for: all of the object's table but propertyList, the required ones, the optional ones -- in table order"""
+    return [p for p, pr in o._properties.items()
+            if p != 'propertyList' and (selector == 'all' or (selector == 'required' and not pr.optional) or (selector == 'optional' and pr.optional))]
+
+def expected_refs(o, ref):
+    """the (property, index) pairs one reference of the request must be answered with"""
+    p, i = ref.propertyIdentifier, ref.propertyArrayIndex
+    if p not in SELECTORS or o is None:
+        return [(p, i)]
+    # a selector reports every property of its class that exists; absent ones are left out
+    return [(q, i) for q in selected(o, p) if expected_error(o, q, i) != ('property', 'unknownProperty')]
+
+def multi_answer_ok(s, apdu, answers):
+    if len(answers) != 1:
+        return False
+    r = answers[0][0]
+    if not (type(r) is ReadPropertyMultipleACK and r.apduInvokeID == apdu.apduInvokeID and len(r.listOfReadAccessResults) == len(apdu.listOfReadAccessSpecs)):
+        return False
+    for spec, res in zip(apdu.listOfReadAccessSpecs, r.listOfReadAccessResults):
+        objid = spec.objectIdentifier
+        if objid == WILD and s.localDevice is not None:
+            objid = DEV_ID
+        if res.objectIdentifier != objid:
+            return False
+        o = s.ghost_objects.get(objid)
+        want = []
+        for ref in spec.listOfPropertyReferences:
+            want.extend(expected_refs(o, ref))
+        got = res.listOfResults
+        if len(got) != len(want):
+            return False
+        for el, (p, i) in zip(got, want):
+            if not element_ok(el, o, p, i):
+                return False
+    return True
+
+_RPM = dict(globals_={"Any": ("bacpypes.service.object", GhostAny)},
+            ensures=["multi_answer_ok(self, apdu, trace('answers'))", "view(self.ghost_obj) == old(view(self.ghost_obj))"], modifies=[])
+
+contract("bacpypes.service.object:ReadWritePropertyMultipleServices.do_ReadPropertyMultipleRequest",
+    name="bacpypes.service.object:ReadWritePropertyMultipleServices.do_ReadPropertyMultipleRequest[one reference]",
+    params={"self": MultiServices(with_device=False),
+            "apdu": MultiReq(Spec((OBJ_ID, ('analogValue', 2)), Ref('level', 'name', 'slots', 'ranges', 'nonesuch', 'all', 'required', 'optional')))},
+    note="one reference of any kind (property with any index, unknown property, the three selectors) to a known or unknown object: exactly one ack with the request's "
+         "invoke ID, per selected property what ReadProperty answers or the embedded error; absent optional properties are left out of a selector's answer, propertyList too",
+    **_RPM)
+
+contract("bacpypes.service.object:ReadWritePropertyMultipleServices.do_ReadPropertyMultipleRequest",
+    name="bacpypes.service.object:ReadWritePropertyMultipleServices.do_ReadPropertyMultipleRequest[two specifications, wildcard device]",
+    params={"self": MultiServices(with_device=True),
+            "apdu": MultiReq(Spec((OBJ_ID,), Ref('slots'), Ref('nonesuch', 'required', indexed=False)),
+                             Spec((WILD, ('analogValue', 2)), Ref('limit', 'optional', indexed=False)))},
+    note="results keep the order of the request (specifications, references within one, properties within a selector), one result list per specification, "
+         "the wildcard device instance is answered under the device's own identifier, an error in one reference does not disturb its neighbours",
+    **_RPM)
